@@ -26,6 +26,10 @@ RULE = ("scenario = seeded world (draft, root schema with definitions, 0-3 remot
         "exception while >=1 extra resolution scope was pushed (measured by reach probe), AND a later operation, "
         "performed by the fresh-validator oracle, resolved >=1 reference; distinct = distinct scenario digests")
 
+REQUIRED_PROBES = ("abandon_with_scopes_pushed", "abandon_with_2plus_scopes_pushed", "gc_finalised_iterator_and_popped",
+                   "consumer_died_with_scopes_pushed", "fault:handler_fail_first", "op_ended_in_exception",
+                   "fault:collab_raise", "fault:net_short_body")
+
 VALIDATION_OPS = ["is_valid", "exhaust", "validate", "take_close", "take_drop", "take_cycle",
                   "tree", "best_match", "consumer_raises"]
 RESOLVER_OPS = ["resolve", "resolving", "in_scope"]
@@ -45,13 +49,6 @@ def generate(rng, tier="quick"):
         W.all_ref_strings(world["docs"][u], refs)
         refs.append(u)
     refs += ["#", "#/definitions/d0", "d1.json#/definitions/d0", "sub/d2.json"]
-    sites = []
-    if world["formats"]:
-        sites += ["format:" + n for n in world["formats"]["names"]]
-    if world["custom"]:
-        sites += ["type:" + n for n in world["custom"]["types"]]
-        sites += ["kw:" + n for n in world["custom"]["keywords"]]
-    collab_rate = rng.choice([0.0, 0.15, 0.4]) if sites else 0.0
     ninst = len(world["instances"])
     ops = []
     for _ in range(nops):
@@ -61,9 +58,6 @@ def generate(rng, tier="quick"):
             op["inst"] = rng.randrange(ninst)
             if kind in ("take_close", "take_drop", "take_cycle", "consumer_raises"):
                 op["k"] = rng.choice([0, 1, 1, 1, 2, 2, 3, 5])
-            if rng.random() < collab_rate:
-                op["collab"] = {"site": rng.choice(sites), "n": rng.randint(1, 3),
-                                "exc": rng.choice(["ValueError", "KeyError", "RuntimeError", "SimFault"])}
         elif kind == "resolve":
             op["ref"] = rng.choice(refs)
         elif kind == "resolving":
@@ -181,11 +175,12 @@ def shrink(scn):
             c = copy.deepcopy(scn)
             del c["cfg"]["faults"][u]
             yield c
-    for i, op in enumerate(scn["ops"]):
-        if "collab" in op:
+    if scn["world"].get("triggers"):
+        for kind in list(scn["world"]["triggers"]):
             c = copy.deepcopy(scn)
-            del c["ops"][i]["collab"]
+            del c["world"]["triggers"][kind]
             yield c
+    for i, op in enumerate(scn["ops"]):
         if op.get("k", 0) > 0:
             c = copy.deepcopy(scn)
             c["ops"][i]["k"] = op["k"] - 1
